@@ -19,7 +19,7 @@ def parseNats (s : String) (dropSuffix : Bool) : Option (List Nat) :=
   if s == "-" then some [] else
   (s.splitOn ".").mapM fun p =>
     let q := if dropSuffix then (p.dropEnd 1).toString else p
-    if dropSuffix && !(p.endsWith "n" || p.endsWith "s") then none else q.toNat?
+    if dropSuffix && !(p.endsWith "n" || p.endsWith "s" || p.endsWith "e") then none else q.toNat?
 
 def flag (c : Char) : Option Bool := if c == '1' then some true else if c == '0' then some false else none
 
@@ -155,11 +155,6 @@ partial def mountTags (depthM : Nat) (inGroup : Bool) : List Item → List Strin
   | .group _ _ is :: t => mountTags depthM true is ++ mountTags depthM inGroup t
   | _ :: t => mountTags depthM inGroup t
 
-def trailInvOk (tbl : List (Bytes × List Bytes)) : Bool :=
-  tbl.all fun (p, ps) => match tbl.find? (·.1 == p ++ [47]) with
-    | some e => e.2 == ps
-    | none => true
-
 def handleCase (f : List String) : Except String Verdict := do
   match f with
   | [id, cfgS, tree, ptable, reqs, stackM, stackG, resM, resG] =>
@@ -174,8 +169,7 @@ def handleCase (f : List String) : Except String Verdict := do
     let implObs := stackM ++ "#" ++ stackG
     let fm := flatten cfg po items
     let fg := flattenSpec cfg po items
-    let modelObs := if trailInvOk tbl then renderTable fm ++ "#" ++ renderTable fg
-                    else "assumption-broken: Params differ between a path and path+'/'"
+    let modelObs := renderTable fm ++ "#" ++ renderTable fg
     let rm := if resM == "-" then [] else resM.splitOn ","
     let rg := if resG == "-" then [] else resG.splitOn ","
     let nreq := if reqs == "-" then 0 else (reqs.splitOn ",").length
@@ -185,13 +179,14 @@ def handleCase (f : List String) : Except String Verdict := do
       else match parseStacks stackM, parseStacks stackG with
       | some tm, some tg => specViolation cfg tm tg rm rg
       | _, _ => some "unparsable-observation"
-    let k1 := Known.K1 cfg items
-    let known := if k1 then some "K1" else none
+    -- the inputs of the repaired finding F5 (formerly known finding K1): tagged, no longer excused
+    let f5 := Known.F5region cfg items
+    let known : Option String := none
     let mounted := hasMount items
     let hit := rm.any fun r => !(r.startsWith "|")
     let tags := (if mounted then ["mount"] else ["no-mount"]) ++ (mountTags 0 false items).eraseDups ++
       (if cfg.strict then ["strict"] else []) ++ (if cfg.caseSensitive then ["case-sensitive"] else []) ++
-      (if k1 then ["k1-region"] else []) ++ (if hit then ["served"] else ["nothing-served"]) ++
+      (if f5 then ["f5-region"] else []) ++ (if hit then ["served"] else ["nothing-served"]) ++
       (if mounted && hit then ["nt"] else [])
     pure { id := id, modelObs := modelObs, implObs := implObs, spec := spec, known := known, tags := tags }
   | _ => throw s!"outside-domain: expected 9 fields, got {f.length}"
